@@ -305,6 +305,7 @@ def run_C10(ctx, R):
         return lambda units, r: rule(with_inlined(units, 'cJSON.c', 'cJSON_ParseWithLengthOpts'), r)
     _per_config(ctx, R, entry_view(only_entry))
     _per_config(ctx, R, entry_view(parse.c10_structure))
+    _per_config(ctx, R, _inl(parse.tab22))
     _per_config(ctx, R, parse.tab2_parse)
 
 
@@ -481,6 +482,7 @@ def run_C02(ctx, R):
     _per_config(ctx, R, _only_functions(parse.tab7, {'parse_number'}, 'TAB7', 1))
     _per_config(ctx, R, _inl(parse.c02_structure))
     _per_config(ctx, R, _inl(parse.tab21))
+    _per_config(ctx, R, _inl(parse.tab22))
     _per_config(ctx, R, _only_functions(lst.lst1, {'parse_array', 'parse_object'}, 'LST1', 2))
     _per_config(ctx, R, parse.tab1_depth_balance)
     from .rules import parse as _parse
@@ -498,6 +500,7 @@ def run_C03(ctx, R):
     _per_config(ctx, R, _inl(parse.tab4))
     _per_config(ctx, R, _inl(parse.c03_structure))
     _per_config(ctx, R, _inl(parse.tab21))
+    _per_config(ctx, R, _inl(parse.tab22))
     from .rules import parse as _parse
     _per_config(ctx, R, _parse.num2)
     _per_config(ctx, R, _parse.num3)
